@@ -138,7 +138,12 @@ class Check:
             elif r.status == "sat":
                 o.status, o.model = "refuted", r.model
             else:
-                o.status = "unknown"
+                # undecided: look for a counterexample by evaluating the goal at models of the hypotheses alone
+                m = _refute_by_models(pc, goal)
+                if m is not None:
+                    o.status, o.model, o.backend = "refuted", m, "z3-model-of-hypotheses+evaluation"
+                else:
+                    o.status = "unknown"
         o.time_s = time.time() - t0
         self._after(o)
         return o
@@ -254,6 +259,24 @@ class Check:
                        "repo": REPO}, f, indent=1)
         self.violations.append((o, path, reproduced))
 
+    def section(self, name, fkey, fn):
+        """run one deductive section; if the verified code leaves the supported subset (or the symbolic execution
+        itself fails) the section is recorded as undecided and the check continues with its bounded stand-in"""
+        try:
+            fn()
+            return True
+        except paths.OutOfReach as e:
+            msg = f"{name}: verified code left the supported subset: {e}"
+        except paths.PathLimit as e:
+            msg = f"{name}: {e}"
+        except Exception as e:  # noqa: BLE001
+            msg = f"{name}: symbolic execution failed: {type(e).__name__}: {e}"
+        self.out_of_reach.append(msg)
+        o = self._new(f"{name}:section_decided", fkey)
+        o.status, o.backend, o.detail = "unknown", "engine", msg[:300]
+        self._after(o)
+        return False
+
     # ------------------------------------------------------------------ parallel sections
     def run_parallel(self, tasks, max_workers=None):
         """tasks: list of (label, callable(chk)).  Each runs in a forked child on a copy of this Check and
@@ -262,8 +285,8 @@ class Check:
         import select
         max_workers = max_workers or int(os.environ.get("PYVC_JOBS", "0") or 0) or min(14, os.cpu_count() or 1)
         if max_workers <= 1 or len(tasks) <= 1 or os.environ.get("PYVC_SERIAL"):
-            for _, fn in tasks:
-                fn(self)
+            for label, fn in tasks:
+                self.section(f"task[{label}]", next(iter(self.functions), "-"), lambda fn=fn: fn(self))
             return
         results = {}
         pending = list(enumerate(tasks))
@@ -279,12 +302,7 @@ class Check:
                 try:
                     base = {k: len(getattr(self, k)) for k in ("obls", "violations", "known_hits", "errors", "canaries",
                                                                "bounded", "notes", "out_of_reach", "assumed", "trusted")}
-                    try:
-                        fn(self)
-                    except paths.OutOfReach as e:
-                        self.errors.append(f"[{label}] verified code left the supported subset: {e}")
-                    except Exception as e:  # noqa: BLE001
-                        self.errors.append(f"[{label}] checker crashed: {type(e).__name__}: {e}\n" + traceback.format_exc()[-1500:])
+                    self.section(f"task[{label}]", next(iter(self.functions), "-"), lambda: fn(self))
                     for ob in self.obls:
                         ob.replay = None
                     out = {k: getattr(self, k)[n:] for k, n in base.items()}
@@ -353,7 +371,10 @@ class Check:
             self.errors.append("no obligations were generated")
         for fk, f in self.functions.items():
             if not any(o.function == fk for o in self.obls):
-                self.errors.append(f"function under contract without obligations: {fk}")
+                if self.out_of_reach:
+                    self.notes.append(f"no obligations for {fk} (a section was out of reach)")
+                else:
+                    self.errors.append(f"function under contract without obligations: {fk}")
         level = self.level
         if level == "proof" and (len(discharged) != len(must) or not must):
             level = "other"
@@ -414,6 +435,41 @@ class Check:
                 print(f"CHECKER-ERROR: property={self.pid} {e}")
             return 3
         return 1 if self.violations else 0
+
+
+def _refute_by_models(pc, goal, tries=6):
+    """models of the path condition (usually easy for the solver) at which the goal evaluates to False are genuine
+    counterexamples of the obligation"""
+    import random
+    import z3
+    rnd = random.Random(0)
+    syms = sorted(set().union(*[sp.sympify(c).free_symbols for c in list(pc) + [goal]]), key=str)
+    if not syms or len(syms) > 60:
+        return None
+    extra = []
+    for t in range(tries):
+        r = z3back.check(list(pc) + extra, timeout_ms=4000, use_cvc5=False)
+        if r.status != "sat":
+            return None
+        vals = {}
+        for s in syms:
+            v = r.model.get(s.name)
+            if isinstance(v, bool) or v is None or isinstance(v, str):
+                v = Fraction(rnd.randint(-40, 40), rnd.randint(1, 9))
+            vals[s] = sp.Rational(Fraction(v).numerator, Fraction(v).denominator)
+        try:
+            g = goal.xreplace(vals)
+            ok_pc = all(bool(sp.sympify(c).xreplace(vals)) for c in pc)
+            if ok_pc and g in (sp.false, False):
+                return {s.name: Fraction(int(vals[s].p), int(vals[s].q)) for s in syms}
+            if ok_pc and isinstance(g, sp.Basic) and not g.free_symbols and bool(g) is False:
+                return {s.name: Fraction(int(vals[s].p), int(vals[s].q)) for s in syms}
+        except Exception:  # noqa: BLE001
+            pass
+        # steer the next model away: perturb one symbol
+        s = syms[t % len(syms)]
+        extra = [sp.Ne(s, vals[s]), sp.Gt(sp.Abs(s - vals[s]), sp.Rational(1, 3))]
+    return None
 
 
 def _prep(e):
